@@ -20,8 +20,8 @@ package c43
 
 import (
 	"fmt"
-	"os"
 	"math/rand/v2"
+	"os"
 	"regexp"
 	"runtime"
 	"sort"
@@ -105,8 +105,9 @@ var globals = map[string]string{
 				if not (String?(m) or Number?(m))
 					errs.Add("FOREIGN member " $ Display(m))
 		case 10:
-			if ob.Size() < ob.Size(list:)
-				errs.Add("FOREIGN size")
+			ob.Size()
+			ob.Size(list:)
+			ob.Size(named:)
 		case 11:
 			ob.Find(t)
 			ob.Has?(C43Val(t, i))
@@ -250,7 +251,8 @@ var globals = map[string]string{
 			r.SetDeps(#c43x, "c43a,c43b")
 		case 18:
 			for x in r
-				C43Check(x, errs)
+				if not (Number?(x) or String?(x) or Object?(x))
+					errs.Add("FOREIGN value " $ Display(x))
 		case 19:
 			r.c43a++
 		default:
@@ -341,7 +343,7 @@ var globals = map[string]string{
 			try
 				C43ObOp(op, ob, t, i, errs)
 			catch (e)
-				errs.Add(Display(e))
+				errs.Add("op" $ op $ " " $ Display(e))
 			}
 		done.Add(t)
 		}`,
@@ -353,11 +355,12 @@ type scenario struct {
 	fn   Value
 	// check looks at the value returned by the scenario; nt threads, ops per thread
 	check func(c *caseCtx, res Value)
-	maxOp int // op codes are drawn from [0, maxOp]
+	ops   []int // the operation codes the threads draw from (nil: the scenario has a fixed body)
+	known bool  // dedicated to one operation with a known race (see known_findings.d/C43.jsonl)
 }
 
 var scenarios = []*scenario{
-	{name: "object-mix", maxOp: 36, src: `function (nt, opsList, errs)
+	{name: "object-mix", ops: opsExcept(36, 14, 15, 23), src: `function (nt, opsList, errs)
 		{
 		ob = Object(n: 0)
 		mk = function (t, ops, ob, errs)
@@ -370,7 +373,7 @@ var scenarios = []*scenario{
 					try
 						C43ObOp(op, ob, t, i, errs)
 					catch (e)
-						errs.Add(Display(e))
+						errs.Add("op" $ op $ " " $ Display(e))
 					}
 				}
 			}
@@ -382,7 +385,7 @@ var scenarios = []*scenario{
 			errs.Add("HANG " $ r)
 		return ob
 		}`},
-	{name: "object-via-Thread-args", maxOp: 36, src: `function (nt, opsList, errs)
+	{name: "object-via-Thread-args", ops: opsExcept(36, 14, 15, 23), src: `function (nt, opsList, errs)
 		{
 		ob = Object(n: 0)
 		done = Object()
@@ -500,12 +503,13 @@ var scenarios = []*scenario{
 	{name: "closure-shared-variables", src: `function (nt, opsList, errs)
 		{
 		// several closures over the same variables, used by all threads while the
-		// creating function goes on assigning the variables
-		cur = Object()
+		// creating function goes on assigning the variables (strings and numbers;
+		// assigning a new object after sharing is the known-closure-variable scenario)
+		box = Object()
 		last = C43Val(0, 0)
 		count = 0
-		put = {|v| cur = Object(v, v); last = v; count++ }
-		get = { cur }
+		put = {|v| box.Add(v); last = v; count++ }
+		get = { box }
 		getlast = { last }
 		mk = function (t, cnt, put, get, getlast, errs)
 			{
@@ -519,6 +523,8 @@ var scenarios = []*scenario{
 						x.Add(C43Val(t, i))
 						C43Check(x[0], errs)
 						C43Check(getlast(), errs)
+						if x.Size() > 300
+							x.Delete(all:)
 						}
 				catch (e)
 					errs.Add(Display(e))
@@ -530,10 +536,9 @@ var scenarios = []*scenario{
 			wg.Thread(mk(t, cnt, put, get, getlast, errs))
 		for i in ..cnt
 			{
-			cur = Object(C43Val(99, i))
-			cur.Add(i)
 			last = C43Val(99, i)
 			C43Check(last, errs)
+			C43Check(getlast(), errs)
 			count++
 			}
 		r = wg.Wait(900)
@@ -541,7 +546,7 @@ var scenarios = []*scenario{
 			errs.Add("HANG " $ r)
 		return count
 		}`},
-	{name: "record-mix", maxOp: 20, src: `function (nt, opsList, errs)
+	{name: "record-mix", ops: opsExcept(20, 10), src: `function (nt, opsList, errs)
 		{
 		r = Record(c43a: 1, c43b: 2, c43s: "")
 		counter = Object()
@@ -556,7 +561,7 @@ var scenarios = []*scenario{
 					try
 						C43RecOp(op, r, t, i, errs, counter)
 					catch (e)
-						errs.Add(Display(e))
+						errs.Add("op" $ op $ " " $ Display(e))
 					}
 				}
 			}
@@ -568,7 +573,7 @@ var scenarios = []*scenario{
 			errs.Add("HANG " $ x)
 		return r
 		}`},
-	{name: "instance-and-class", maxOp: 16, src: `function (nt, opsList, errs)
+	{name: "instance-and-class", ops: opsExcept(16), src: `function (nt, opsList, errs)
 		{
 		c = new C43Class
 		mk = function (t, ops, c, errs)
@@ -581,7 +586,7 @@ var scenarios = []*scenario{
 					try
 						C43InstOp(op, c, t, i, errs)
 					catch (e)
-						errs.Add(Display(e))
+						errs.Add("op" $ op $ " " $ Display(e))
 					}
 				}
 			}
@@ -593,7 +598,7 @@ var scenarios = []*scenario{
 			errs.Add("HANG " $ r)
 		return c
 		}`},
-	{name: "suneido-global-members", maxOp: 36, src: `function (nt, opsList, errs)
+	{name: "suneido-global-members", ops: opsExcept(36, 14, 15, 23), src: `function (nt, opsList, errs)
 		{
 		Suneido.c43shared = Object(n: 0)
 		mk = function (t, ops, errs)
@@ -612,7 +617,7 @@ var scenarios = []*scenario{
 							x.Add(t)
 						}
 					catch (e)
-						errs.Add(Display(e))
+						errs.Add("op" $ op $ " " $ Display(e))
 					}
 				}
 			}
@@ -672,6 +677,83 @@ var scenarios = []*scenario{
 			c.violate("C43/lost-update/copy-on-write-original-changed-size", map[string]any{"result": fmt.Sprint(res)})
 		}
 	}},
+}
+
+func opsExcept(max int, except ...int) []int {
+	var l []int
+outer:
+	for op := 0; op <= max; op++ {
+		for _, e := range except {
+			if e == op {
+				continue outer
+			}
+		}
+		l = append(l, op)
+	}
+	return l
+}
+
+// Scenarios dedicated to the operations with a known race, so that the general
+// scenarios stay clean and any race reported there is a new one. They reuse the
+// object-mix / record-mix bodies with a restricted operation table.
+func init() {
+	find := func(name string) *scenario {
+		for _, sc := range scenarios {
+			if sc.name == name {
+				return sc
+			}
+		}
+		panic(name)
+	}
+	om, rm := find("object-mix"), find("record-mix")
+	scenarios = append(scenarios,
+		&scenario{name: "known-unique", known: true, src: om.src, ops: []int{15, 15, 0, 3, 6, 8, 10, 19, 11, 36}},
+		&scenario{name: "known-sort-with-block", known: true, src: om.src, ops: []int{14, 14, 0, 3, 8, 11, 17, 19, 36}},
+		&scenario{name: "known-binarysearch-with-block", known: true, src: om.src, ops: []int{23, 23, 23, 0, 4, 6, 36}},
+		&scenario{name: "known-record-pack", known: true, src: rm.src, ops: []int{10, 10, 0, 1, 2}},
+		&scenario{name: "known-closure-variable-assigned-after-sharing", known: true, src: `function (nt, opsList, errs)
+		{
+		// closures over a variable that the creating function (and the closures) keep
+		// assigning new objects to after the closures were handed to other threads.
+		// The objects are only touched with Set_default and a lookup of a missing member.
+		cur = Object()
+		put = {|v| cur = Object().Set_default(v) }
+		get = { cur }
+		mk = function (t, cnt, put, get, errs)
+			{
+			return {
+				try
+					for i in ..cnt
+						{
+						if i % 3 is 0
+							put(C43Val(t, i))
+						x = get()
+						x.Set_default(C43Val(t, i))
+						// (only the type is looked at: the bytes of a string that came
+						// through the unsynchronized object would add unrelated race pairs)
+						if not String?(x.nosuchmember)
+							errs.Add("FOREIGN default value")
+						}
+				catch (e)
+					errs.Add(Display(e))
+				}
+			}
+		cnt = opsList[0].Size()
+		wg = WaitGroup()
+		for t in ..nt
+			wg.Thread(mk(t, cnt, put, get, errs))
+		for i in ..cnt
+			{
+			cur = Object()
+			cur.Set_default(C43Val(99, i))
+			if not String?(cur.nosuchmember)
+				errs.Add("FOREIGN default value")
+			}
+		r = wg.Wait(900)
+		if r isnt true
+			errs.Add("HANG " $ r)
+		return 0
+		}`})
 }
 
 // ------------------------------------------------------------------ Go side
@@ -803,7 +885,18 @@ var allowedErr = []*regexp.Regexp{
 	regexp.MustCompile(`index out of range|string index`), // Suneido level range messages are not used; kept out below
 }
 
-func classifyErr(s string) (allowed bool, class string) {
+var packOverflow = regexp.MustCompile(`^op([0-9]+) .*runtime error: (slice bounds out of range|index out of range)`)
+
+func classifyErr(sc *scenario, s string) (allowed bool, class string) {
+	packOp := "17" // C43ObOp
+	if strings.Contains(sc.src, "C43RecOp") {
+		packOp = "10"
+	}
+	if m := packOverflow.FindStringSubmatch(s); m != nil && m[1] == packOp {
+		// Pack(object) while another thread makes the object bigger: core/pack.go Pack
+		// computes the size, allocates, then packs (see the WARNING there)
+		return false, "C43/pack-buffer-overflow-during-concurrent-modification"
+	}
 	if strings.Contains(s, "runtime error") || strings.Contains(s, "nil pointer") || strings.Contains(s, "index out of range") ||
 		strings.Contains(s, "slice bounds") || strings.Contains(s, "concurrent map") || strings.Contains(s, "assert") {
 		return false, "C43/go-runtime-error-in-thread"
@@ -851,12 +944,12 @@ func runCase(rep *vk.Report, parent *Thread, idx int) {
 		ops := make([]Value, nops)
 		for i := range ops {
 			op := 0
-			if sc.maxOp > 0 {
+			if len(sc.ops) > 0 {
 				// a biased mix: each case favours a few operations so that they really collide
 				if r.IntN(3) == 0 {
-					op = r.IntN(sc.maxOp + 1)
+					op = sc.ops[r.IntN(len(sc.ops))]
 				} else {
-					op = (idx/len(scenarios)*7 + r.IntN(6)*5 + t%2) % (sc.maxOp + 1)
+					op = sc.ops[(idx/len(scenarios)*7+r.IntN(6)*5+t%2)%len(sc.ops)]
 				}
 			}
 			ops[i] = IntVal(op)
@@ -907,7 +1000,10 @@ func runCase(rep *vk.Report, parent *Thread, idx int) {
 	counts := map[string]int{}
 	for i := 0; i < errs.ListSize(); i++ {
 		s := AsStr(errs.ListGet(i))
-		ok, class := classifyErr(s)
+		ok, class := classifyErr(sc, s)
+		if !ok && sc.known {
+			class += "/" + sc.name
+		}
 		if ok {
 			counts[digits.ReplaceAllString(vk.Trunc(s, 60), "N")]++
 			continue
